@@ -7,15 +7,28 @@ use vaporetto_rules::{
 };
 
 const TEXTS: &[&str] = &["12a34あ5", "ab12cd", "アイ1ウ漢字", "1\r\n2\n3\r4", "a\u{1f468}\u{200d}\u{1f469}b\u{1f44f}\u{1f3fd}", "\n", "x",
-    "前の行\n", "a\r\n", "\ra", "行\nx", "Vaporetto", "2021", "a\u{915}\u{93e}", "\u{e01}\u{e33}だ", "\u{600}12", "e\u{301}x", "\u{1f1ef}\u{1f1f5}a"];
+    "前の行\n", "a\r\n", "\ra", "行\nx", "Vaporetto", "2021", "a\u{915}\u{93e}", "\u{e01}\u{e33}だ", "\u{600}12", "e\u{301}x", "\u{1f1ef}\u{1f1f5}a",
+    "\u{1f1ef}\u{1f1f5}\u{1f1fa}\u{1f1f8}\u{1f1eb}", "\u{1100}\u{1161}\u{11a8}a", "a\r\n\r\nb", "\r\n"];
 // known answers for extended grapheme clusters (UAX #29): (text, boundary index that lies INSIDE a cluster)
 const INSIDE_CLUSTER: &[(&str, usize)] = &[("a\u{915}\u{93e}", 1), ("\u{e01}\u{e33}だ", 0), ("\u{600}12", 0), ("e\u{301}x", 0), ("\u{1f1ef}\u{1f1f5}a", 0),
-    ("a\u{1f468}\u{200d}\u{1f469}b\u{1f44f}\u{1f3fd}", 1), ("a\u{1f468}\u{200d}\u{1f469}b\u{1f44f}\u{1f3fd}", 2), ("a\u{1f468}\u{200d}\u{1f469}b\u{1f44f}\u{1f3fd}", 5)];
+    ("a\u{1f468}\u{200d}\u{1f469}b\u{1f44f}\u{1f3fd}", 1), ("a\u{1f468}\u{200d}\u{1f469}b\u{1f44f}\u{1f3fd}", 2), ("a\u{1f468}\u{200d}\u{1f469}b\u{1f44f}\u{1f3fd}", 5),
+    ("1\r\n2\n3\r4", 1), ("a\r\n", 1)];
 const TYPES: [CharacterType; 6] = [
     CharacterType::Digit, CharacterType::Roman, CharacterType::Hiragana,
     CharacterType::Katakana, CharacterType::Kanji, CharacterType::Other,
 ];
 
+// boundary i (between characters i and i+1) lies inside an extended grapheme cluster of `text` segmented as a whole
+fn inside_cluster_whole_text(text: &str, i: usize) -> bool {
+    use unicode_segmentation::UnicodeSegmentation;
+    let mut start = 0;
+    for g in text.graphemes(true) {
+        let n = g.chars().count();
+        if start <= i && i + 1 < start + n { return true; }
+        start += n;
+    }
+    false
+}
 fn lab(code: usize, k: usize) -> Vec<B> {
     let mut c = code;
     (0..k).map(|_| { let b = match c % 3 { 0 => B::NotWordBoundary, 1 => B::WordBoundary, _ => B::Unknown }; c /= 3; b }).collect()
@@ -63,7 +76,8 @@ fn check(filter_id: usize, text: &str, labels: &[B]) -> Option<String> {
                     if chars[i].is_ascii_alphanumeric() && chars[i + 1].is_ascii_alphanumeric() && after[i] != labels[i] {
                         return Some(format!("boundary {i} between two ASCII alphanumerics was changed"));
                     }
-                    after[i]
+                    // exact rule against the segmentation of the WHOLE text by the same crate (the filter asks it cluster by cluster)
+                    if inside_cluster_whole_text(text, i) { B::NotWordBoundary } else { labels[i] }
                 }
             };
             if after[i] != want {
